@@ -933,6 +933,53 @@ def analyzer_failures(tier, seed):
     return fails, {'analyzer_failure_reads': n, 'analyzer_failure_raised': nraised}
 
 
+
+# ------------------------------------------------------------------ oracle 5: time objects as operands of time axes (units differ)
+def axis_time_operands(tier, seed):
+    """UniformTime / TimeArray on the left, a TIME OBJECT on the right whose unit is the same as / differs from the left one's:
+    arrays of times (ramp, not a ramp, wrong length), 0-d time points, the attribute objects of another axis / of a series, another
+    axis.  Returned or raised, the operand is what it was: samples, unit label, conversion factor, repr, and its attributes."""
+    t = ts()
+    C = _c16()
+    fails, n = [], 0
+    rep = {'what': 'r2', 'part': 'axis-operands'}
+    ops = [('add', operator.add), ('sub', operator.sub), ('radd', lambda a, b: b + a), ('rsub', lambda a, b: b - a), ('iadd', operator.iadd), ('isub', operator.isub),
+           ('lt', operator.lt), ('ge', operator.ge), ('eq', operator.eq)]
+    for lu in ('ms', 's', 'us'):
+        lefts = [('UniformTime', lambda: t.UniformTime(t0=1, sampling_interval=2, length=4, time_unit=lu)),
+                 ('TimeArray', lambda: t.TimeArray([1, 3, 5, 7], time_unit=lu))]
+        for ou in ('ms', 's', 'us', 'ps'):
+            other_axis = lambda: t.UniformTime(t0=3, sampling_interval=5, length=4, time_unit=ou)
+            series = lambda: t.TimeSeries(np.arange(4.), sampling_interval=5, t0=3, time_unit=ou)
+            operands = [('ramp', lambda: t.TimeArray([0, 2, 4, 6], time_unit=ou)), ('not-a-ramp', lambda: t.TimeArray([0, 2, 5, 6], time_unit=ou)),
+                        ('wrong-length', lambda: t.TimeArray([0, 2, 4], time_unit=ou)), ('point-0d', lambda: t.TimeArray(7, time_unit=ou)),
+                        ('one-element', lambda: t.TimeArray([7], time_unit=ou)), ('axis.t0', lambda: other_axis().t0), ('axis.sampling_interval', lambda: other_axis().sampling_interval),
+                        ('axis.duration', lambda: other_axis().duration), ('series.t0', lambda: series().t0), ('series.sampling_interval', lambda: series().sampling_interval),
+                        ('other-axis', other_axis), ('series.time', lambda: series().time), ('row-of-2d', lambda: t.TimeArray([[0, 2, 4, 6], [1, 3, 5, 7]], time_unit=ou)[1])]
+            for lname, mk in lefts:
+                for oname, mko in operands:
+                    for opn, op in ops:
+                        try:
+                            x, left = mko(), mk()
+                        except Exception:  # noqa
+                            continue
+                        state = lambda: (C.snap(x), repr(x), getattr(x, 'time_unit', None), repr(getattr(x, '_conversion_factor', None)), type(x).__name__)
+                        b0 = state()
+                        try:
+                            op(left, x)
+                            status = 'returned'
+                        except Exception as e:  # noqa
+                            status = 'raised ' + type(e).__name__
+                        n += 1
+                        b1 = state()
+                        if b0 != b1:
+                            what = C.differs(b0[0], b1[0]) or 'unit-label-changed'
+                            if b0[2] != b1[2] or b0[3] != b1[3]:
+                                what = 'unit-label-changed'
+                            fails.append(Failure('axis-op/%s/%s/%s/%s-unit/operand-%s' % (lname, opn, oname, 'same' if lu == ou else 'other', what),
+                                                 '%s[%s] %s %s[%s] (%s) changed the operand: %s -> %s' % (lname, lu, opn, oname, ou, status, b0[1:4], b1[1:4]), rep))
+    return fails, n
+
 # ------------------------------------------------------------------ entry points for c16.oracle / c16.replay
 def oracle(tier, seed, cases, guarded):
     fails, stats = [], {}
@@ -945,7 +992,9 @@ def oracle(tier, seed, cases, guarded):
     f2, s2 = guarded('r2-entry-failures', lambda: entry_failures(tier, seed), ([], {}))
     f3, s3 = guarded('r2-entry-aliases', lambda: entry_aliases(tier, seed), ([], {}))
     f4, s4 = guarded('r2-analyzers', lambda: analyzer_failures(tier, seed), ([], {}))
-    fails += f1 + f2 + f3 + f4
+    f5, n5 = guarded('r2-axis-operands', lambda: axis_time_operands(tier, seed), ([], 0))
+    fails += f1 + f2 + f3 + f4 + f5
+    stats['axis_time_operand_calls'] = n5
     stats.update(series_failure_path_calls=n1, **s2)
     stats.update(s3)
     stats.update(s4)
@@ -969,4 +1018,6 @@ def replay(d):
         return entry_aliases('thorough', seed, only_fam=d.get('fam'))[0]
     if part == 'analyzers':
         return analyzer_failures('quick', seed)[0]
+    if part == 'axis-operands':
+        return axis_time_operands('quick', seed)[0]
     return []
